@@ -176,6 +176,17 @@ func c19Worker(in []byte) interface{} {
 					break
 				}
 			}
+			if e.Kind == "rename-input" && e.Param != "" {
+				// ... but the wildcard's own source is ordinary source text: a
+				// renamed pipeline input must be renamed in `* = self.<input>` too
+				stale := regexp.MustCompile(`\*\s*=\s*self\.` + regexp.QuoteMeta(e.Param) + `\b`)
+				for _, text := range nf {
+					if stale.MatchString(text) {
+						cls = "wildcard-source-not-renamed"
+						break
+					}
+				}
+			}
 		}
 		add("edited-not-compiling:"+e.Kind+":"+cls, fmt.Sprintf("after %v the program no longer compiles: %v", e, err))
 		return res
@@ -213,7 +224,19 @@ func c19Worker(in []byte) interface{} {
 			}
 		}
 	case "remove-input", "remove-output", "remove-unused":
-		if e.Kind != "remove-unused" {
+		usedSomewhere := false
+		if e.Kind == "remove-output" {
+			// removing an output that is in use (CALL.<out> occurs somewhere) cannot leave
+			// the call graph alone - its uses become null, a disabled modifier fed by it is
+			// dropped; only "still compiles and still resolves" is asked of such an edit
+			ref := regexp.MustCompile(`\.` + regexp.QuoteMeta(e.Param) + `\b`)
+			for _, text := range inp.Files {
+				if ref.MatchString(text) {
+					usedSomewhere = true
+				}
+			}
+		}
+		if e.Kind != "remove-unused" && !usedSomewhere {
 			f0, f1 := nodeFqids(g0), nodeFqids(g1)
 			if strings.Join(f0, ",") != strings.Join(f1, ",") {
 				add("nodes-changed:"+e.Kind, fmt.Sprintf("the set of call graph nodes changed after %v: %v vs %v", e, f0, f1))
@@ -354,7 +377,7 @@ func init() {
 							prefixOfSibling = true
 						}
 					}
-					if prefixOfSibling || rng.Intn(2) == 0 {
+					if prefixOfSibling || isSkel || rng.Intn(2) == 0 {
 						add(c19Edit{Kind: "rename-input", Callable: cb.name, Param: in.Name, NewName: fmt.Sprintf("fresh_in_%d", rng.Intn(1000)), Fresh: true})
 					}
 					if (isSkel || rng.Intn(3) == 0) && p.Stage(cb.name) != nil {
